@@ -40,11 +40,13 @@ def main():
 
     chk = Check(prop, tier, seed)
     try:
-        obligations, discharged, problems = proofs.obligations_for(prop, getattr(mod, "EXPECTED", []))
+        obligations, discharged, problems = proofs.obligations_for(prop, getattr(mod, "EXPECTED", []), tier)
     except FileNotFoundError as ex:
         print(f"infrastructure failure: {ex}", file=sys.stderr)
         return 2
     chk.obligations, chk.discharged = obligations, discharged
+    if tier == "thorough":
+        chk.coverage_extra["leanchecker"] = "re-checked AptMirror.Props.%s" % prop if proofs.LEANCHECK["ran"] else "not run"
     rng = random.Random(f"{prop}-{seed}")
     try:
         mod.run(chk, tier, rng)
